@@ -216,9 +216,9 @@ package vm
 //@ func EVM.Call
 //@   trusted
 //@   ensures leftOverGas <= gas
-//@   assigns bal, nonces, refundctr
+//@   assigns bal, nonces, refundctr, supply
 
 //@ func EVM.Create
 //@   trusted
 //@   ensures leftOverGas <= gas
-//@   assigns bal, nonces, refundctr
+//@   assigns bal, nonces, refundctr, supply
